@@ -31,7 +31,12 @@ impl Term for f64 {
         TermKind::Literal
     }
     fn lexical_form(&self) -> Option<MownStr> {
-        Some(MownStr::from(format!("{}", self)))
+        // NB: Rust displays infinities as "inf" and "-inf", which are not in the lexical space of xsd:double
+        Some(if self.is_infinite() {
+            MownStr::from(if *self > 0.0 { "INF" } else { "-INF" })
+        } else {
+            MownStr::from(format!("{}", self))
+        })
     }
     fn datatype(&self) -> Option<IriRef<MownStr>> {
         Some(IriRef::new_unchecked(MownStr::from_ref(&XSD_DOUBLE)))
